@@ -222,6 +222,20 @@ def s15_4_version_alignment_verify(ctx, P):
                   len(rej) >= 2 and gs and gs2, function=b.path, guards=[site(b, g) for g, _ in rej])
 
 
+def s15_4_alignment_predicate(ctx, P):
+    """The verify-side helper accepts a (signature version, key version) pair iff both are v6 or neither is (RFC 9580 5.2: a v6 key
+    makes v6 signatures only, and a v6 signature is made by a v6 key only) — all 36 pairs evaluated on its CFG."""
+    from rules import verpairs
+    cands = [p for p in ctx.f.bodies if p.endswith('::check_signature_key_version_alignment')]
+    if not cands:
+        return
+    b = ctx.body(cands[0])
+    acc = verpairs.accepted_pairs(b, ok_exit_blocks(b))
+    want = {(s_, k) for s_ in verpairs.SV for k in verpairs.KV if (s_ == 'V6') == (k == 'V6')}
+    ctx.check(P + ':S15-4:alignment-predicate', 'R-table', 'check_signature_key_version_alignment returns Ok exactly for the pairs in which signature and key are both v6 or both not v6',
+              acc == want, function=b.path, accepted=len(acc), missing=None if acc == want else 'wrongly accepted: %s; wrongly refused: %s' % (sorted(acc - want), sorted(want - acc)))
+
+
 def s15_8_hash_strength_verify(ctx, P):
     """R-sib: every non-forwarding caller of VerifyingKey::verify applies check_signature_hash_strength before the primitive (detached,
     certification, binding and INLINE message verification judge a signature alike)."""
@@ -261,6 +275,12 @@ def s15_5_version_alignment_sign(ctx, P):
         rdom(ctx, '%s:S15-5:align:%s' % (P, b.path), b, call_blocks(b, r'SigningKey::sign$'),
              [r'call:.*SignatureConfig::version$', r'cs:.*KeyDetails::version#(%s)$' % '|'.join(str(i) for i in vsites)],
              'sign side: (signature version, key version) guard dominates SigningKey::sign in %s' % b.path.split('::')[-1], rule='R-sib', mode='each')
+        # ... and the guard accepts exactly the aligned pairs: evaluated concretely for every (signature version, key version)
+        from rules import verpairs
+        acc = verpairs.accepted_pairs(b, call_blocks(b, r'SigningKey::sign$'))
+        want = {('V4', 'V4'), ('V6', 'V6')}
+        ctx.check('%s:S15-5:aligned-pairs-only:%s' % (P, b.path), 'R-table', 'sign side: %s reaches the signing primitive exactly for (v4 signature, v4 key) and (v6 signature, v6 key) — all 36 version pairs evaluated on the CFG' % b.path.split('::')[-1],
+                  acc == want, function=b.path, table=sorted(acc), missing=None if acc == want else 'also accepted: %s; refused though aligned: %s' % (sorted(acc - want), sorted(want - acc)))
 
 
 def s02_6_backsig(ctx, P):
